@@ -76,7 +76,14 @@ package config
 //@ lemma C08.overlapIffCommon: forall a *net.IPNet, b *net.IPNet :: WfCIDR(a) && WfCIDR(b) ==>
 //@     (Overlap(a, b) == (exists x net.IP :: net.NetContains(*a, x) && net.NetContains(*b, x)))
 
+// DenotesNets(s, l): l is the list of networks the text s (a CIDR or an inclusive start-end range) stands for - a name for
+// what ParseCIDR returns (assumed clause [denotes]); that a range is summarised exactly is assumed of ipaddr.Summarize
+//@ ufun DenotesNets(string, []*net.IPNet) bool
+//@ ufun DenotesNet(string, *net.IPNet) bool
 //@ func ParseCIDR
+//@   ensures assumed [denotes] result1 == nil ==> DenotesNets(cidr, result0)
+//@   ensures assumed [denotesEach] result1 == nil ==> (forall k int :: 0 <= k && k < len(result0) ==> DenotesNet(cidr, result0[k]))
+//@   ensures [freshList] result1 == nil ==> fresh(result0)
 //@   ensures [nonempty] result1 == nil ==> len(result0) >= 1
 //@   ensures [canonical] result1 == nil ==> (forall i int :: 0 <= i && i < len(result0) ==> WfCIDR(result0[i]))
 //@   ensures [onefamily] result1 == nil ==> (forall i int, j int :: 0 <= i && i < len(result0) && 0 <= j && j < len(result0) ==> net.is4(result0[i].IP) == net.is4(result0[j].IP))
@@ -125,11 +132,20 @@ package config
 //@ func addressPoolFromCR
 //@   ensures [pool] result1 == nil ==> result0 != nil && fresh(result0) && result0.Name == p.Name && p.Name != "" && len(result0.CIDR) >= 1 && AllWf(result0.CIDR)
 //@   ensures [noAdvs] result1 == nil ==> result0.L2Advertisements == nil && result0.BGPAdvertisements == nil
+//@   ensures [written] result1 == nil ==> (forall i int :: 0 <= i && i < old(len(p.Spec.Addresses)) ==> (old(p.Spec.Addresses[i]) in result0.cidrsPerAddresses) && DenotesNets(old(p.Spec.Addresses[i]), result0.cidrsPerAddresses[old(p.Spec.Addresses[i])]))
+//@   ensures [onlyWritten] result1 == nil ==> (forall n string :: (n in result0.cidrsPerAddresses) ==> (exists i int :: 0 <= i && i < old(len(p.Spec.Addresses)) && old(p.Spec.Addresses[i]) == n))
+//@   ensures [nothingLost] result1 == nil ==> (forall n string, k int :: (n in result0.cidrsPerAddresses) && 0 <= k && k < len(result0.cidrsPerAddresses[n]) ==> (result0.cidrsPerAddresses[n][k] in result0.CIDR))
+//@   ensures [nothingAdded] result1 == nil ==> (forall x *net.IPNet :: (x in result0.CIDR) ==> (exists i int :: 0 <= i && i < old(len(p.Spec.Addresses)) && DenotesNet(old(p.Spec.Addresses[i]), x)))
 //@   ensures [entries] result1 == nil ==> EntriesOK(result0)
 //@   ensures result1 != nil ==> result0 == nil
-//@   modifies fresh *Pool, fresh []*net.IPNet, fresh *net.IPNet, fresh []string, fresh []interface{}, fresh map[string][]*net.IPNet, fresh *ServiceAllocation, fresh map[string]sets.Empty, fresh []labels.Selector
+//@   modifies []string, fresh *Pool, fresh []*net.IPNet, fresh *net.IPNet, fresh []string, fresh []interface{}, fresh map[string][]*net.IPNet, fresh *ServiceAllocation, fresh map[string]sets.Empty, fresh []labels.Selector
 //@   loop 1 binds cidr
 //@   loop 1 invariant [entries] forall n string :: (n in ret.cidrsPerAddresses) ==> len(ret.cidrsPerAddresses[n]) >= 1
+//@   loop 1 invariant [written] forall i int :: 0 <= i && i < iter ==> (p.Spec.Addresses[i] in ret.cidrsPerAddresses) && DenotesNets(p.Spec.Addresses[i], ret.cidrsPerAddresses[p.Spec.Addresses[i]])
+//@   loop 1 invariant [onlyWritten] forall n string :: (n in ret.cidrsPerAddresses) ==> (exists i int :: 0 <= i && i < iter && p.Spec.Addresses[i] == n)
+//@   loop 1 invariant [apart] forall n string :: (n in ret.cidrsPerAddresses) ==> allocated(ret.cidrsPerAddresses[n]) && !sameArray(ret.cidrsPerAddresses[n], ret.CIDR)
+//@   loop 1 invariant [nothingLost] forall n string, k int :: (n in ret.cidrsPerAddresses) && 0 <= k && k < len(ret.cidrsPerAddresses[n]) ==> (ret.cidrsPerAddresses[n][k] in ret.CIDR)
+//@   loop 1 invariant [nothingAdded] forall x *net.IPNet :: (x in ret.CIDR) ==> (exists i int :: 0 <= i && i < iter && DenotesNet(p.Spec.Addresses[i], x))
 //@   loop 1 invariant ret != nil && fresh(ret) && ret.Name == p.Name && p.Name != "" && ret.cidrsPerAddresses != nil && fresh(ret.cidrsPerAddresses) && (ret.CIDR == nil || fresh(ret.CIDR)) && AllWf(ret.CIDR) && (iter > 0 ==> len(ret.CIDR) >= 1)
 
 // the attachment of advertisements and the remaining validations do not change pool names or address ranges
